@@ -248,8 +248,15 @@ def rawMut {β : Type} (d : DState) (f : R.Raw Nat Nat → R.Out (R.Raw Nat Nat 
     | .ok (t, r) => ({ d with raw := t }, sh r)
     | o => ({ d with rawLost := true }, outS o (fun _ => "") ++ " state-lost")
 
-def hOf (env : Array Ref) (t : String) : Option Ref := t.toNat?.bind (fun i => env[i]?)
-def hsOf (env : Array Ref) (ts : List String) : Option (List Ref) := ts.mapM (hOf env)
+/-- a named handle, provided it still names a stored node *in the model's state*: once the two sides
+have diverged the harness (which tracks liveness on the implementation) may send a handle whose cell
+the model has freed; walking from a free cell can meet reused cells and need not terminate quickly,
+so such a request is refused (`bad-op`, which the implementation never answers) -/
+def hOf (env : Array Ref) (s : St) (t : String) : Option Ref :=
+  t.toNat?.bind (fun i => env[i]?.bind (fun r =>
+    -- (index 0 is the `Ref::ZERO` sentinel: never a handle, the generators do not pass it on)
+    if r.idx ≠ 0 && Arr.rd s.storage.occs r.idx then some r else none))
+def hsOf (env : Array Ref) (s : St) (ts : List String) : Option (List Ref) := ts.mapM (hOf env s)
 
 /-- put the manager back, nothing else changed -/
 def keep (d : DState) (s : St) (out : String) : DState × String := ({ d with st := some s }, out)
@@ -275,21 +282,27 @@ def stepMgr (d : DState) (s : St) (toks : List String) : DState × String :=
   match toks with
   | ["var", v] => match v.toNat? with | some v => pushRes d (mkVar s v) | none => keep d s "bad-op"
   | ["node", v, lo, hi] =>
-    match v.toNat?, hOf d.env lo, hOf d.env hi with
-    | some v, some lo, some hi => pushRes d (mkNode s v lo hi)
+    match v.toNat?, hOf d.env s lo, hOf d.env s hi with
+    | some v, some lo, some hi =>
+      -- `mk_node` has a precondition the code does not check (the variable lies above both children);
+      -- the harness only sends ordered requests, so an unordered one means the two sides have already
+      -- diverged: refuse it instead of building an ill-formed diagram (whose walks need not be small)
+      let above (r : Ref) : Bool := isTerminal r || (r.idx != 0 && v < s.var r)
+      if v = 0 || (above lo && above hi) then pushRes d (mkNode s v lo hi)
+      else keep d s "unordered"
     | _, _, _ => keep d s "bad-op"
-  | ["not", a] => match hOf d.env a with | some a => pushRes d (.ok (s, a.not)) | none => keep d s "bad-op"
+  | ["not", a] => match hOf d.env s a with | some a => pushRes d (.ok (s, a.not)) | none => keep d s "bad-op"
   | ["ite", a, b, c] =>
-    match hOf d.env a, hOf d.env b, hOf d.env c with
+    match hOf d.env s a, hOf d.env s b, hOf d.env s c with
     | some a, some b, some c => pushRes d (applyIte FUEL s a b c)
     | _, _, _ => keep d s "bad-op"
-  | ["and", a, b] => match hOf d.env a, hOf d.env b with | some a, some b => pushRes d (applyAnd FUEL s a b) | _, _ => keep d s "bad-op"
-  | ["or", a, b] => match hOf d.env a, hOf d.env b with | some a, some b => pushRes d (applyOr FUEL s a b) | _, _ => keep d s "bad-op"
-  | ["xor", a, b] => match hOf d.env a, hOf d.env b with | some a, some b => pushRes d (applyXor FUEL s a b) | _, _ => keep d s "bad-op"
-  | ["eq", a, b] => match hOf d.env a, hOf d.env b with | some a, some b => pushRes d (applyEq FUEL s a b) | _, _ => keep d s "bad-op"
-  | ["imply", a, b] => match hOf d.env a, hOf d.env b with | some a, some b => pushRes d (applyImply FUEL s a b) | _, _ => keep d s "bad-op"
-  | "andmany" :: rs => match hsOf d.env rs with | some rs => pushRes d (andMany FUEL s Ref.one rs) | none => keep d s "bad-op"
-  | "ormany" :: rs => match hsOf d.env rs with | some rs => pushRes d (orMany FUEL s Ref.zero rs) | none => keep d s "bad-op"
+  | ["and", a, b] => match hOf d.env s a, hOf d.env s b with | some a, some b => pushRes d (applyAnd FUEL s a b) | _, _ => keep d s "bad-op"
+  | ["or", a, b] => match hOf d.env s a, hOf d.env s b with | some a, some b => pushRes d (applyOr FUEL s a b) | _, _ => keep d s "bad-op"
+  | ["xor", a, b] => match hOf d.env s a, hOf d.env s b with | some a, some b => pushRes d (applyXor FUEL s a b) | _, _ => keep d s "bad-op"
+  | ["eq", a, b] => match hOf d.env s a, hOf d.env s b with | some a, some b => pushRes d (applyEq FUEL s a b) | _, _ => keep d s "bad-op"
+  | ["imply", a, b] => match hOf d.env s a, hOf d.env s b with | some a, some b => pushRes d (applyImply FUEL s a b) | _, _ => keep d s "bad-op"
+  | "andmany" :: rs => match hsOf d.env s rs with | some rs => pushRes d (andMany FUEL s Ref.one rs) | none => keep d s "bad-op"
+  | "ormany" :: rs => match hsOf d.env s rs with | some rs => pushRes d (orMany FUEL s Ref.zero rs) | none => keep d s "bad-op"
   | "cube" :: lits =>
     match lits.mapM String.toInt? with
     | some ls => pushRes d (cube s (ls.map litOfInt))
@@ -299,40 +312,42 @@ def stepMgr (d : DState) (s : St) (toks : List String) : DState × String :=
     | some ls => pushRes d (clause s (ls.map litOfInt))
     | none => keep d s "bad-op"
   | ["subst", f, v, b] =>
-    match hOf d.env f, v.toNat? with
+    match hOf d.env s f, v.toNat? with
     | some f, some v =>
       pushRes d (match substitute FUEL s f v (b == "1") [] with
         | .ok (s', r, _) => .ok (s', r) | .error e => .error e)
     | _, _ => keep d s "bad-op"
   | "substm" :: f :: lits =>
-    match hOf d.env f, lits.mapM String.toInt? with
+    match hOf d.env s f, lits.mapM String.toInt? with
     | some f, some ls =>
       pushRes d (match substMulti FUEL s f (ls.map litOfInt) [] with
         | .ok (s', r, _) => .ok (s', r) | .error e => .error e)
     | _, _ => keep d s "bad-op"
   | "cofcube" :: f :: lits =>
-    match hOf d.env f, lits.mapM String.toInt? with
+    match hOf d.env s f, lits.mapM String.toInt? with
     | some f, some ls =>
       pushRes d (match cofCube FUEL s f (ls.map litOfInt) [] with
         | .ok (s', r, _) => .ok (s', r) | .error e => .error e)
     | _, _ => keep d s "bad-op"
   | ["compose", f, v, g] =>
-    match hOf d.env f, v.toNat?, hOf d.env g with
+    match hOf d.env s f, v.toNat?, hOf d.env s g with
     | some f, some v, some g => pushRes d (composeTop FUEL s f v g)
     | _, _, _ => keep d s "bad-op"
-  | ["constrain", f, g] => match hOf d.env f, hOf d.env g with | some f, some g => pushRes d (constrain FUEL s f g) | _, _ => keep d s "bad-op"
-  | ["restrict", f, g] => match hOf d.env f, hOf d.env g with | some f, some g => pushRes d (restrict FUEL s f g) | _, _ => keep d s "bad-op"
+  | ["constrain", f, g] => match hOf d.env s f, hOf d.env s g with | some f, some g => pushRes d (constrain FUEL s f g) | _, _ => keep d s "bad-op"
+  | ["restrict", f, g] => match hOf d.env s f, hOf d.env s g with | some f, some g => pushRes d (restrict FUEL s f g) | _, _ => keep d s "bad-op"
   | "exprc" :: _ :: ts | "expr" :: ts =>
-    match ts.mapM (parseTok d.env) with
+    match ts.mapM (fun t => (parseTok d.env t).bind (fun k => match k with
+        | Tok.h r => if r.idx ≠ 0 && Arr.rd s.storage.occs r.idx then some k else none
+        | k => some k)) with
     | some tl =>
       match parseRust tl with
       | some pv => pushRes d (pv.eval FUEL s)
       | none => keep d s "bad-op"
     | none => keep d s "bad-op"
-  | ["low", f] => match hOf d.env f with | some f => pushRes d (.ok (s, s.lowNode f)) | none => keep d s "bad-op"
-  | ["high", f] => match hOf d.env f with | some f => pushRes d (.ok (s, s.highNode f)) | none => keep d s "bad-op"
+  | ["low", f] => match hOf d.env s f with | some f => pushRes d (.ok (s, s.lowNode f)) | none => keep d s "bad-op"
+  | ["high", f] => match hOf d.env s f with | some f => pushRes d (.ok (s, s.highNode f)) | none => keep d s "bad-op"
   | ["topcof", f, v] =>
-    match hOf d.env f, v.toNat? with
+    match hOf d.env s f, v.toNat? with
     | some f, some v =>
       match topCofactors s f v with
       | .ok (a, b) =>
@@ -350,7 +365,7 @@ def stepMgr (d : DState) (s : St) (toks : List String) : DState × String :=
         ({ d with st := some s, env := (env.push Ref.zero).push Ref.zero }, "panic " ++ e.toString)
     | _, _ => keep d s "bad-op"
   | ["itec", a, b, c] =>
-    match hOf d.env a, hOf d.env b, hOf d.env c with
+    match hOf d.env s a, hOf d.env s b, hOf d.env s c with
     | some a, some b, some c =>
       match iteConstant FUEL s a b c with
       | .ok (s', o) => ({ d with st := some s' },
@@ -358,35 +373,35 @@ def stepMgr (d : DState) (s : St) (toks : List String) : DState × String :=
       | .error (e, s') => ({ d with st := some s' }, "panic " ++ e.toString)
     | _, _, _ => keep d s "bad-op"
   | ["implies", a, b] =>
-    match hOf d.env a, hOf d.env b with
+    match hOf d.env s a, hOf d.env s b with
     | some a, some b =>
       match isImplies FUEL s a b with
       | .ok (s', o) => ({ d with st := some s' }, boolS o)
       | .error (e, s') => ({ d with st := some s' }, "panic " ++ e.toString)
     | _, _ => keep d s "bad-op"
   | ["satcount", f, n] =>
-    match hOf d.env f, n.toNat? with
+    match hOf d.env s f, n.toNat? with
     | some f, some n =>
       keep d s (match satCount FUEL s f n with | .ok c => toString c | .error e => "panic " ++ e.toString)
     | _, _ => keep d s "bad-op"
   | ["onesat", f] =>
-    match hOf d.env f with
+    match hOf d.env s f with
     | some f => keep d s (match oneSat FUEL s f [] with | some p => showIntList p | none => "None")
     | none => keep d s "bad-op"
   | ["paths", f] =>
-    match hOf d.env f with
+    match hOf d.env s f with
     | some f => keep d s (match paths FUEL s f with
         | some ps => "[" ++ ", ".intercalate (ps.map showIntList) ++ "]" | none => "panic fuel")
     | none => keep d s "bad-op"
   | "heldgc" :: which :: rs =>
-    match hsOf d.env rs, (match which with | "cache" => some 0 | "size" => some 1 | "storage" => some 2 | _ => none) with
+    match hsOf d.env s rs, (match which with | "cache" => some 0 | "size" => some 1 | "storage" => some 2 | _ => none) with
     | some _, some w =>
       match collectGarbageHeld w s with
       | .ok s' => ({ d with st := some s' }, "ok")
       | .error (e, s') => ({ d with st := some s' }, "panic " ++ e.toString)
     | _, _ => keep d s "bad-op"
   | ["pathsi.open", f] =>
-    match hOf d.env f with
+    match hOf d.env s f with
     | some f =>
       match paths FUEL s f with
       | some ps => keep { d with pit := some ps } s "ok"
@@ -399,26 +414,26 @@ def stepMgr (d : DState) (s : St) (toks : List String) : DState × String :=
     | some (p :: rest) => keep { d with pit := some rest } s (showIntList p)
   | ["pathsi.close"] => keep { d with pit := none } s "ok"
   | ["size", f] =>
-    match hOf d.env f with
+    match hOf d.env s f with
     | some f => let p := size s f; ({ d with st := some p.1 }, toString p.2)
     | none => keep d s "bad-op"
   | "desc" :: rs =>
-    match hsOf d.env rs with
+    match hsOf d.env s rs with
     | some rs => keep d s (if d.abs then toString (descendants s rs).length else showNatList (sortNat (descendants s rs)))
     | none => keep d s "bad-op"
   | "gc" :: rs =>
-    match hsOf d.env rs with
+    match hsOf d.env s rs with
     | some rs =>
       match collectGarbage s rs with
       | .ok s' => ({ d with st := some s' }, "ok")
       | .error (e, s') => ({ d with st := some s' }, "panic " ++ e.toString)
     | none => keep d s "bad-op"
   | ["bracket", f] =>
-    match hOf d.env f with
+    match hOf d.env s f with
     | some f => keep d s (if d.abs then (canonRef 100000 s f []).1 else toBracketString FUEL s f)
     | none => keep d s "bad-op"
   | "dot" :: rs =>
-    match hsOf d.env rs with
+    match hsOf d.env s rs with
     | some rs => keep d s (match renderDot s rs with
         | .ok ls => if d.abs then "dot " ++ toString ((descendants s rs).length) else "\\n".intercalate ls
         | .error e => "panic " ++ e.toString)
